@@ -804,6 +804,11 @@ def execute(scenario):
     if real is not None:
         res.count("probe:real_pool_crosscheck")
         for i in order:
+            if real.get(i) is None and got.get(i) is None:
+                # no result under the real pool and none under the simulated schedule either (a strategy that raises, or one
+                # that was never started because an earlier in-process run of the session raised): judged above, once
+                res.count("probe:real_pool_no_result_like_simulated")
+                continue
             _compare(res, scenario, i, "realpool", alone[i], real.get(i), alone_info[i], None)
     res.actuator.account_status = [None] * res.bars
     return res
